@@ -288,7 +288,8 @@ def ref_decode_data(data: bytes, encoders: Sequence[Sequence]) -> bytes:
     return data
 
 
-def ref_decode_request(steps, path: bytes, params, headers, body: bytes, base_uris: Sequence[bytes]) -> Dict[str, bytes]:
+def ref_decode_request(steps, path: bytes, params, headers, body: bytes, base_uris: Sequence[bytes],
+                       uri_pct: bool = True) -> Dict[str, bytes]:
     """Decode a client request (parts as the peer parsed them) -> {build name: data}. Also checks the static
     decorations the program prescribes."""
     static, blocks = split_blocks(steps)
@@ -324,7 +325,7 @@ def ref_decode_request(steps, path: bytes, params, headers, body: bytes, base_ur
             base = next((u for u in sorted(base_uris, key=len, reverse=True) if path.startswith(u)), None)
             if base is None:
                 raise RefDecodeError(f"path {path!r} does not start with a configured URI")
-            raw = pct_decode(path[len(base):], plus_is_space=False)
+            raw = pct_decode(path[len(base):], plus_is_space=False) if uri_pct else path[len(base):]
         out[name] = ref_decode_data(raw, encoders)
     return out
 
